@@ -242,3 +242,62 @@ Example C04_deepcopy_hypotheses_satisfiable : forall pm io,
                  | Ok ms => if is_nil (pk_files p) then [] else ms
                  | _ => [] end) pm io 8).
 Proof. exact GP.deepcopy_det_witness. Qed.
+
+(* ---- one system, loader side (Model/Tables.v, Props/Tables.v, notes/Tables.md): the type table and the method
+   lists of this file's model are those of C13's model (Model/Universe.v); their order-independence is an INSTANCE
+   of C13's theorems (proved through the adapters [T.u_of_det] / [T.u_of_meth]) ---- *)
+Require Gengo.Model.Universe Gengo.Proofs.Universe Gengo.Model.Tables Gengo.Props.Tables.
+Module T := Gengo.Model.Tables.
+Module Uni := Gengo.Model.Universe.
+
+(* for every oracle and every Defs list of C13's model (objects of all kinds, any order) describing the same type
+   names: same key set, same lookup function *)
+Theorem C04_table_is_C13_table :
+  forall (o : oracle) p os,
+    shuffles o ->
+    Permutation (T.types_of os) (map T.u_of_det (pk_defs p)) ->
+    (forall n, In n (map fst (Uni.t_types (Uni.fill_tables Uni.all_fixed os))) <-> In n (keys (type_table true o p)))
+    /\ (forall n, Gengo.Proofs.Universe.unique_at os Uni.KType n ->
+          Uni.lookup Uni.KType n (Uni.fill_tables Uni.all_fixed os)
+          = option_map td_uid (lookup n (type_table true o p))).
+Proof. exact Gengo.Props.Tables.Tables_universe_is_determinism. Qed.
+Print Assumptions C04_table_is_C13_table.
+
+(* "the table does not depend on the order of Defs" from C13_tables_order_independent *)
+Theorem C04_table_order_independent_from_C13 :
+  forall (o1 o2 : oracle) p,
+    shuffles o1 -> shuffles o2 ->
+    NoDup (map td_name (filter td_pkgscope (pk_defs p))) ->
+    forall n, option_map td_uid (lookup n (type_table true o1 p)) = option_map td_uid (lookup n (type_table true o2 p)).
+Proof. exact Gengo.Props.Tables.Tables_determinism_table_order_independent. Qed.
+Print Assumptions C04_table_order_independent_from_C13.
+
+(* this file's MethodsOf (before and after the ordering repair) = C13's MethodsOf(n, true) up to C13_methods's
+   permutation (on the tables of the loop alone); on the tables newPkg leaves behind ([Uni.new_pkg_tables]: loop, then
+   the ordering of package.go:146-157) the two are equal *)
+Theorem C04_methods_are_C13_methods :
+  forall fm (o : oracle) p ptr os n,
+    shuffles o ->
+    Permutation (T.meths_of os) (map (T.u_of_meth ptr) (pk_meths p)) ->
+    Permutation (map Uni.o_name (Uni.methods_of Uni.all_fixed (Uni.fill_tables Uni.all_fixed os) n true))
+                (methods_of fm o p (Uni.n_origin n)).
+Proof. exact Gengo.Props.Tables.Tables_methods_agree. Qed.
+Print Assumptions C04_methods_are_C13_methods.
+
+Theorem C04_methods_sorted_are_C13_methods :
+  forall (o : oracle) p ptr os n,
+    shuffles o ->
+    NoDup (map m_pos (pk_meths p)) ->
+    Permutation (T.meths_of os) (map (T.u_of_meth ptr) (pk_meths p)) ->
+    map Uni.o_name (Uni.methods_of Uni.all_fixed (Uni.new_pkg_tables Uni.all_fixed Uni.o_id os) n true)
+    = methods_of true o p (Uni.n_origin n).
+Proof. exact Gengo.Props.Tables.Tables_methods_sorted_agree. Qed.
+Print Assumptions C04_methods_sorted_are_C13_methods.
+
+Theorem C04_methods_order_independent_from_C13 :
+  forall (o1 o2 : oracle) p uid,
+    shuffles o1 -> shuffles o2 ->
+    NoDup (map m_pos (pk_meths p)) ->
+    methods_of true o1 p uid = methods_of true o2 p uid.
+Proof. exact Gengo.Props.Tables.Tables_determinism_methods_order_independent. Qed.
+Print Assumptions C04_methods_order_independent_from_C13.
